@@ -394,6 +394,9 @@ class Connection(object):
                 self.__avail_tx_tls_pend = glib.idle_add(self._avail_tx_tls)
 
         else:
+            if self.__s_notls is None:
+                # Already closed, nothing can be sent any more
+                return
             if self.__avail_tx_notls_id is None:
                 self.__avail_tx_notls_id = glib.io_add_watch(
                     self.__s_notls, glib.IO_OUT, self._avail_tx_notls)
